@@ -598,6 +598,33 @@ func R5(pkgs ...string) func(p *core.Prog) *core.Result {
 					}
 				}
 			}
+			// MARKER-PAYLOAD (ubjson encoder): a payload byte written right behind an integer marker constant
+			mpBad := map[ssa.Instruction]*ival{}
+			var mpPairs map[ssa.Instruction]markerPair
+			if pk.Name() == "ubjson" {
+				mpPairs = markerPayloadPairs(f)
+				if len(mpPairs) > 0 {
+					prev3 := k.observe
+					k.observe = func(s istate, ins ssa.Instruction) {
+						prev3(s, ins)
+						mp, ok := mpPairs[ins]
+						if !ok {
+							return
+						}
+						iv, ok := env.get(s, mp.operand)
+						if !ok {
+							return
+						}
+						if cur := mpBad[ins]; cur != nil {
+							h := hull(*cur, iv)
+							mpBad[ins] = &h
+						} else {
+							c := iv
+							mpBad[ins] = &c
+						}
+					}
+				}
+			}
 			_, capped := WalkPaths[istate](k, f.Blocks[0], 0, istate{}, 400000, nil)
 			fkey := core.FuncKey(f)
 			if pk.Name() == "cborl" && core.FuncName(f) == "stepNeg" {
@@ -638,6 +665,25 @@ func R5(pkgs ...string) func(p *core.Prog) *core.Result {
 			if capped {
 				r.Undecided(".CONV", fkey, "state cap hit in "+fkey)
 				continue
+			}
+			{
+				var il []ssa.Instruction
+				for in := range mpPairs {
+					il = append(il, in)
+				}
+				sort.Slice(il, func(i, j int) bool { return instrPos(il[i]) < instrPos(il[j]) })
+				for i, in := range il {
+					mp := mpPairs[in]
+					rng, _ := ubjsonMarkerRange(f.Pkg, mp.marker)
+					pos := p.Pos(token.Pos(instrPos(in)))
+					total++
+					r.Stats["ubjson_marker_payload_pairs"]++
+					if iv := mpBad[in]; iv != nil && !iv.within(rng) {
+						r.Fail(".MARKER-PAYLOAD", fmt.Sprintf("%s|%s#%d", fkey, mp.marker, i+1), pos, fmt.Sprintf("%s writes %s followed by a payload byte converted from a value that can be anywhere in %s, but that marker carries %s: a reader takes the byte for a different number (a length above 127 under the signed 8-bit marker is negative)", fkey, mp.marker, iv, rng), "")
+					} else {
+						r.Ok(".MARKER-PAYLOAD", pos, fmt.Sprintf("%s: the byte behind %s is converted from a value within the marker's range", fkey, mp.marker))
+					}
+				}
 			}
 			// judge conversions
 			var convs []*ssa.Convert
@@ -1234,4 +1280,116 @@ func cborWireConstants(p *core.Prog, r *core.Result) {
 		}
 	}
 	r.Floor("cbor_wire_constants", n, 15)
+}
+
+// ---- MARKER-PAYLOAD ----
+//
+// The UBJSON encoder says how to read the next bytes by the marker it writes in
+// front of them. Wherever a one-byte payload converted from a wider integer is
+// written directly behind a marker CONSTANT - two adjacent stores into the same
+// buffer (`buf[k], buf[k+1] = marker, byte(x)`, `append(buf, marker, byte(x))`)
+// or two consecutive writeByte calls - x must lie in the range that marker
+// carries on every path.
+type markerPair struct {
+	marker  string
+	operand ssa.Value // the value before its conversion to a byte
+}
+
+func markerPayloadPairs(f *ssa.Function) map[ssa.Instruction]markerPair {
+	out := map[ssa.Instruction]markerPair{}
+	oneByte := func(name string) bool { return name == "int8Marker" || name == "uint8Marker" }
+	operandOf := func(v ssa.Value) ssa.Value {
+		if cv, ok := v.(*ssa.Convert); ok {
+			if _, isC := cv.X.(*ssa.Const); !isC {
+				return cv.X
+			}
+		}
+		return nil
+	}
+	for _, b := range f.Blocks {
+		// adjacent stores
+		for _, in := range b.Instrs {
+			st, ok := in.(*ssa.Store)
+			if !ok {
+				continue
+			}
+			ia, ok := st.Addr.(*ssa.IndexAddr)
+			if !ok {
+				continue
+			}
+			name := constName(f.Pkg, st.Val)
+			if !oneByte(name) {
+				continue
+			}
+			k, ok := constIntVal(ia.Index)
+			if !ok {
+				continue
+			}
+			for _, in2 := range b.Instrs {
+				st2, ok := in2.(*ssa.Store)
+				if !ok || st2 == st {
+					continue
+				}
+				ia2, ok := st2.Addr.(*ssa.IndexAddr)
+				if !ok {
+					continue
+				}
+				k2, ok := constIntVal(ia2.Index)
+				if !ok || k2 != k+1 {
+					continue
+				}
+				same := ia2.X == ia.X
+				if !same {
+					a, bb := addrKey(ia.X), addrKey(ia2.X)
+					same = a != "" && a == bb
+				}
+				if !same {
+					continue
+				}
+				if op := operandOf(st2.Val); op != nil {
+					out[st2] = markerPair{name, op}
+				}
+			}
+		}
+		// consecutive writeByte calls
+		for i, in := range b.Instrs {
+			c, ok := in.(*ssa.Call)
+			if !ok {
+				continue
+			}
+			sc := c.Common().StaticCallee()
+			if sc == nil || core.FuncName(sc) != "writeByte" || len(c.Common().Args) == 0 {
+				continue
+			}
+			op := operandOf(c.Common().Args[len(c.Common().Args)-1])
+			if op == nil {
+				continue
+			}
+			// nearest preceding writeByte, at most three single-predecessor hops back
+			blk, idx := b, i
+			var prev *ssa.Call
+			for hops := 0; hops < 4 && prev == nil; hops++ {
+				for j := idx - 1; j >= 0 && prev == nil; j-- {
+					if pc, ok := blk.Instrs[j].(*ssa.Call); ok {
+						if psc := pc.Common().StaticCallee(); psc != nil && core.FuncName(psc) == "writeByte" {
+							prev = pc
+						}
+					}
+				}
+				if prev != nil || len(blk.Preds) != 1 {
+					break
+				}
+				blk = blk.Preds[0]
+				idx = len(blk.Instrs)
+			}
+			if prev == nil {
+				continue
+			}
+			name := constName(f.Pkg, prev.Common().Args[len(prev.Common().Args)-1])
+			if oneByte(name) {
+				out[c] = markerPair{name, op}
+			}
+		}
+	}
+	return out
 }
